@@ -104,3 +104,59 @@ def writes_to_field(fn, field_names_suffix):
                 if fp[-n:] == field_names_suffix:
                     out.append((bi, si, st))
     return out
+
+
+def blocks_only_when(fn, switch_block, value):
+    """Blocks that execute only when the SwitchInt of `switch_block` sees `value` (before control re-joins the other
+    edges). A `matches!`-style materialisation (`flag = true` on that edge, `flag = false` on the others, then a switch
+    on `flag`) is followed one level."""
+    cfg = fn.cfg
+    t = fn.blocks[switch_block]["term"]
+    tmap = dict((v, b) for v, b in t["targets"])
+    if value in tmap:
+        tgt = tmap[value]
+        others = set(b for v, b in t["targets"] if v != value) | {t["otherwise"]}
+    else:
+        return set()
+    others.discard(tgt)
+    joined = set()
+    for o in others:
+        joined |= cfg.reachable_from(o, avoid={switch_block})
+    only = cfg.reachable_from(tgt, avoid=others | {switch_block}) - joined
+    out = set(only)
+    # bool materialisation
+    flags = set()
+    for b in only:
+        for st in fn.blocks[b]["stmts"]:
+            if st["k"] == "assign" and not st["place"]["p"] and st["rv"]["k"] == "use" and st["rv"]["op"].get("k") == "const" \
+                    and st["rv"]["op"].get("val") == 1 and st["rv"]["op"].get("ty") == "bool":
+                flags.add(st["place"]["l"])
+    for fl in flags:
+        # the flag must be false on every other edge
+        set_true_elsewhere = False
+        for b, blk in enumerate(fn.blocks):
+            if b in only:
+                continue
+            for st in blk["stmts"]:
+                if st["k"] == "assign" and st["place"]["l"] == fl and not st["place"]["p"]:
+                    op = st["rv"].get("op", {})
+                    if not (st["rv"]["k"] == "use" and op.get("k") == "const" and op.get("val") == 0):
+                        set_true_elsewhere = True
+        if set_true_elsewhere:
+            continue
+        for b, blk in enumerate(fn.blocks):
+            tt = blk["term"]
+            if tt["k"] == "switch":
+                l = op_local(tt["discr"])
+                src = l
+                # `switch move _tmp` where `_tmp = copy flag`
+                for st in blk["stmts"]:
+                    if st["k"] == "assign" and st["place"]["l"] == l and st["rv"]["k"] == "use":
+                        src = op_local(st["rv"]["op"])
+                if src == fl or l == fl:
+                    zero = dict((v, bb) for v, bb in tt["targets"]).get(0)
+                    true_t = tt["otherwise"]
+                    if zero is not None:
+                        j = cfg.reachable_from(zero, avoid={b, switch_block})
+                        out |= cfg.reachable_from(true_t, avoid={zero, b, switch_block}) - j
+    return out
